@@ -235,3 +235,10 @@ Definition ex_body2 : body_t (ex_W false true) :=
 Definition ex_files2' : list (path * model (ex_W false true)) :=
   match ex_body2 (ex_files false true) with Some x => x | None => [] end.
 Definition ex_out2 := edit_file_recursive (ex_W false true) ex_fuel ex_fs ex_root ex_body2.
+
+(* another body: nothing changed, and a NEW entry "e" whose model prints as the empty string *)
+Definition ex_body3 : body_t (ex_W false true) :=
+  fun _ => Some [(zs "m", zs "A" ++ CRLF); (zs "a", zs "B" ++ [NL]); (zs "b", zs "C" ++ [NL]); (zs "e", [])].
+Definition ex_files3' : list (path * model (ex_W false true)) :=
+  match ex_body3 (ex_files false true) with Some x => x | None => [] end.
+Definition ex_out3 := edit_file_recursive (ex_W false true) ex_fuel ex_fs ex_root ex_body3.
